@@ -80,3 +80,46 @@ Definition from_io_c (t : ty) (r : creader) (scratch : list byte) : res (value *
 (* a schedule without end-of-stream reports and failures *)
 Definition gentle (s : list rd_event) : bool :=
   forallb (fun e => match e with RdGive _ | RdInterrupted => true | _ => false end) s.
+
+(* ---- a byte writer that accepts data in pieces, and std::io::Write's write_all over it ----
+   one call of `write` with a buffer of n > 0 bytes follows the next event:
+     WrTake k        accepts at most k+1 bytes
+     WrInterrupted   Err(ErrorKind::Interrupted): write_all retries
+     WrZero          Ok(0): write_all reports WriteZero
+     WrFail          any other error
+   with the schedule used up the writer accepts everything. *)
+From PV Require Import Ser SerFlavors.
+Inductive wr_event := WrTake (k : nat) | WrInterrupted | WrZero | WrFail.
+Record cwriter := { cw_accepted : list byte; cw_sched : list wr_event; cw_flush_fails : bool }.
+(* default Write::write_all:
+     while !buf.is_empty() { match self.write(buf) { Ok(0) => return Err(WriteZero), Ok(n) => buf = &buf[n..],
+                                                     Err(e) if interrupted => {}, Err(e) => return Err(e) } }
+   every error is mapped to SerializeBufferFull by the flavour *)
+Fixpoint write_all_loop (fuel : nat) (w : cwriter) (bs : list byte) : res cwriter :=
+  match bs with
+  | [] => Ok w
+  | _ :: _ =>
+    match fuel with
+    | 0%nat => OutOfFuel
+    | S f =>
+      match cw_sched w with
+      | [] => Ok {| cw_accepted := cw_accepted w ++ bs; cw_sched := []; cw_flush_fails := cw_flush_fails w |}
+      | WrTake k :: s =>
+        let n := Nat.min (S k) (length bs) in
+        write_all_loop f {| cw_accepted := cw_accepted w ++ firstn n bs; cw_sched := s; cw_flush_fails := cw_flush_fails w |} (skipn n bs)
+      | WrInterrupted :: s =>
+        write_all_loop f {| cw_accepted := cw_accepted w; cw_sched := s; cw_flush_fails := cw_flush_fails w |} bs
+      | WrZero :: _ | WrFail :: _ => Err SerializeBufferFull
+      end
+    end
+  end.
+Definition write_all_c (w : cwriter) (bs : list byte) : res cwriter :=
+  write_all_loop (length bs + length (cw_sched w) + 1) w bs.
+Definition cwriter_flavor : sflavor cwriter (list byte) :=
+  {| sf_push := fun w b => write_all_c w [b]; sf_extend := write_all_c;
+     sf_finalize := fun w => if cw_flush_fails w then Err SerializeBufferFull else Ok (cw_accepted w);
+     sf_set := fun _ _ _ => Panic |}.
+Definition to_io_c (v : value) (sched : list wr_event) (flush_fails : bool) :=
+  serialize_with cwriter_flavor {| cw_accepted := []; cw_sched := sched; cw_flush_fails := flush_fails |} v.
+Definition wgentle (s : list wr_event) : bool :=
+  forallb (fun e => match e with WrTake _ | WrInterrupted => true | _ => false end) s.
